@@ -76,6 +76,10 @@ def unit_ast(a):
     return stats
 
 
+def unit_reuse(a):
+    return pc.unit_reuse(a, st_ast(**BIAS), proj_c07, WHAT, 67)
+
+
 def unit_golden(a):
     return pc.unit_golden(proj_c07, WHAT)
 
@@ -86,6 +90,8 @@ def replay(case, stats):
     if case["sub"] == "text":
         from . import textdocs
         return textdocs.check_text(case, stats, "C07")
+    if case["sub"] == "reuse":
+        return pc.check_reuse(case, stats, proj_c07, WHAT)
     return check_ast(case, stats)
 
 
@@ -94,6 +100,7 @@ def run(ctx):
     q = ctx.quick
     ctx.units("golden", unit_golden, [{}])
     ctx.units("ast-hypothesis", unit_ast, [{"n": 1000 if q else 20000, "seed": ctx.seed, "shard": i} for i in range(4 if q else 16)], procs=16)
+    ctx.units("compiler-reuse", unit_reuse, [{"n": 300 if q else 4000, "seed": ctx.seed, "shard": i} for i in range(4 if q else 16)], procs=16)
     from . import textdocs
     textdocs.run_text(ctx, "C07")
     ctx.rule = ("ASTs biased to backgrounds at feature and rule level (0..3 steps), up to 3 rules, every argument kind incl. empty "
